@@ -122,6 +122,12 @@ func (s *segment) setupIndex() (err error) {
 		return err
 	}
 	lastEntry, err := s.Index.InitializePosition()
+	if err == nil && !s.indexCoversLog(lastEntry) {
+		// The log is written before the index, and a replaced segment's log
+		// is renamed into place before its index. After a crash in between,
+		// the index describes fewer or other bytes than the log holds.
+		err = errIndexCorrupt
+	}
 	if err != nil {
 		if err == errIndexCorrupt {
 			// Index is corrupt, attempt to rebuild from log file
@@ -150,6 +156,14 @@ func (s *segment) setupIndex() (err error) {
 		s.firstWriteTime = firstEntry.Timestamp
 	}
 	return nil
+}
+
+// indexCoversLog indicates if the last index entry ends where the log ends.
+func (s *segment) indexCoversLog(lastEntry *entry) bool {
+	if lastEntry == nil {
+		return s.position == 0
+	}
+	return lastEntry.Position+int64(lastEntry.Size) == s.position
 }
 
 // rebuildIndex rebuilds the index by scanning the log file.
@@ -181,11 +195,6 @@ func (s *segment) rebuildIndex() error {
 	s.Index.mu.Lock()
 	s.Index.position = 0
 	s.Index.mu.Unlock()
-
-	// If log file is empty, we're done
-	if s.position == 0 {
-		return nil
-	}
 
 	// Scan the log file and rebuild index entries
 	var pos int64
@@ -237,6 +246,15 @@ func (s *segment) rebuildIndex() error {
 		}
 
 		pos += msgSetHeaderLen + int64(size)
+	}
+
+	// Drop a partial message at the end of the log so that the next write
+	// follows the last indexed message.
+	if pos < s.position {
+		if err := s.log.Truncate(pos); err != nil {
+			return errors.Wrap(err, "failed to truncate log during index rebuild")
+		}
+		s.position = pos
 	}
 
 	// After rebuilding, set position to file size so InitializePosition() can
